@@ -272,6 +272,9 @@ UNITS = [
          expect_cover=("return", "raise:ValueError"), replayer="replayers.c16:replay_graph", refute_hints=SIZES),
 ]
 
+from contracts.core_units import instantiate_unit  # noqa: E402
+UNITS.append(instantiate_unit("C16"))
+
 VERIFIED_CALLEES = ("self.topological_sort",)
 LEVEL = "other"
 TECHNIQUE = "contract-based deductive verification: VCs generated from the real AST (loop invariant, recursion by contract, ghost rank), discharged by z3/cvc5; bounded run-time contract checking as stand-in for the parts not under proof"
